@@ -290,13 +290,24 @@ h_HTInew_dd_block(void)
 {
     mk_frec(1);
     int16 ndds = H4V_MAXNDDS; /* one constant block size per run keeps malloc/memcpy sizes concrete */
-    H4V_ND(int, two_blocks);
-    ddblock_t *head = mk_block(ndds, 4);
-    g_frec->ddhead  = head;
-    if (two_blocks) {
+    H4V_ND(int, n_blocks); /* 1, 2 or 3 existing blocks: head [-> mid] [-> last] */
+    H4V_ASSUME(n_blocks >= 1 && n_blocks <= 3);
+    int        two_blocks = n_blocks >= 2;
+    ddblock_t *head       = mk_block(ndds, 4);
+    g_frec->ddhead        = head;
+    if (n_blocks == 2) {
         g_oldlast       = mk_block(ndds, 4);
         head->next      = g_oldlast;
         g_oldlast->prev = head;
+    }
+    else if (n_blocks == 3) {
+        ddblock_t *mid  = mk_block(ndds, 4);
+        g_oldlast       = mk_block(ndds, 4);
+        head->next      = mid;
+        mid->prev       = head;
+        mid->next       = g_oldlast;
+        g_oldlast->prev = mid;
+        H4V_ASSUME(head->nextoffset == mid->myoffset && mid->myoffset != g_oldlast->myoffset && BLK_WF(mid, g_frec));
     }
     else
         g_oldlast = head;
@@ -308,7 +319,7 @@ h_HTInew_dd_block(void)
     int32 old_end = g_frec->f_end_off;
     int   r       = HTInew_dd_block(g_frec);
     H4V_COVER(r == SUCCEED && g_frec->cache, "HTInew_dd_block cached");
-    H4V_COVER(r == SUCCEED && !g_frec->cache && two_blocks, "HTInew_dd_block third block, written through");
+    H4V_COVER(r == SUCCEED && !g_frec->cache && n_blocks == 3, "HTInew_dd_block fourth block, written through");
     H4V_COVER(r == SUCCEED && !g_frec->cache && g_seqA != 0 && g_offA >= old_end + 6, "HTInew_dd_block ghost byte in DD area");
     H4V_COVER(r == FAIL, "HTInew_dd_block fault");
     H4V_CANARY("HTInew_dd_block end");
